@@ -1,6 +1,6 @@
 """Tie of Model/BeamspreadPath.v (C06) to the real library, evaluated on every run of the check.
 
-Correspondence (see .work/prover_C06_TIE.md):
+Correspondence (see notes/prover_C06_TIE.md):
 
   beamspread_2d_for_path N ifs ray vel          vs  arim.model.beamspread_2d_for_path(ray_geometry)[i, j]
   reverse_beamspread_2d_for_path N ifs ray vel  vs  arim.model.reverse_beamspread_2d_for_path(ray_geometry)[i, j]
@@ -473,7 +473,7 @@ def gen_few_interfaces(rng, nif):
 
 
 def fixed_examples():
-    """E1 .. E9, R, B of .work/prover_C06_TIE.md"""
+    """E1 .. E9, R, B of notes/prover_C06_TIE.md"""
     ex = []
 
     def one(name, pts, frames, flags, vel, duck=False, duck_vel=None, first_last=None):
